@@ -178,8 +178,11 @@ def add(world, hook_assumed=True):
              z3.Implies(z3.And(z3.Not(o._authenticated), z3.Not(o._client), o._firstByte,
                                z3.StrToCode(z3.SubString(cx.a('data'), 0, 1)) != 0),
                         z3.And(trn.g_closed, z3.Not(n._authenticated)))),
+            # the unterminated rest of a line may not exceed 16 KiB - a trailing CR, which may be the first half of the line end, not
+            # counted: whether a line of exactly 16 KiB is cut before or inside its CRLF must not matter
             ('handshake:oversized-pending-line-closes',
-             z3.Implies(z3.And(z3.Not(o._authenticated), z3.Not(n._authenticated), z3.Length(n._buffer) > 16384), trn.g_closed)),
+             z3.Implies(z3.And(z3.Not(o._authenticated), z3.Not(n._authenticated),
+                               z3.Length(n._buffer) > 16384 + z3.If(z3.SuffixOf(z3.StringVal('\r'), n._buffer), 1, 0)), trn.g_closed)),
             ('handshake:only-when-authenticator-succeeded',
              z3.Implies(z3.And(z3.Not(o._authenticated), n._authenticated), cx.new(a0).g_ok)),
             ('handshake:line-mode-inv', z3.Implies(z3.Not(n._authenticated),
